@@ -175,6 +175,11 @@ std::vector<std::string> split(std::string const &s, char sep)
   std::vector<std::string> r;
   if (s == "_")
     return r;
+  if (s == "__") // the list holding one empty string (would be an empty token on the line)
+  {
+    r.emplace_back();
+    return r;
+  }
   std::size_t pos = 0;
   while (true)
   {
